@@ -57,77 +57,6 @@ Qed.
 Lemma set_nth_split {A} (f : A -> A) a p b : set_nth (length a) f (a ++ p :: b) = a ++ f p :: b.
 Proof. induction a as [|x a IH]; cbn [length app set_nth]; [reflexivity|now rewrite IH]. Qed.
 
-(* ------------------------------------------------------------------ pairing up an alternating list *)
-Definition spair : Set := (msg * option msg)%type.
-
-Fixpoint cpairs (o : option msg) (L : list msg) : list spair :=
-  match L with
-  | [] => []
-  | m :: L' => match o with None => cpairs (Some m) L' | Some on => (on, Some m) :: cpairs None L' end
-  end.
-
-Fixpoint popen (o : option msg) (L : list msg) : option msg :=
-  match L with
-  | [] => o
-  | m :: L' => match o with None => popen (Some m) L' | Some _ => popen None L' end
-  end.
-
-Definition pairs_from (o : option msg) (L : list msg) : list spair :=
-  cpairs o L ++ match popen o L with Some on => [(on, None)] | None => [] end.
-
-Lemma cpairs_snoc L : forall o m,
-  cpairs o (L ++ [m]) = cpairs o L ++ match popen o L with Some on => [(on, Some m)] | None => [] end.
-Proof.
-  induction L as [|x L IH]; intros o m; cbn [app cpairs popen].
-  - destruct o; reflexivity.
-  - destruct o; rewrite IH; reflexivity.
-Qed.
-
-Lemma popen_snoc L : forall o m,
-  popen o (L ++ [m]) = match popen o L with Some _ => None | None => Some m end.
-Proof.
-  induction L as [|x L IH]; intros o m; cbn [app popen].
-  - destruct o; reflexivity.
-  - destruct o; apply IH.
-Qed.
-
-Definition opn (st : kst) : bool := match st with KOpen _ => true | _ => false end.
-Definition is_some {A} (o : option A) : bool := match o with Some _ => true | None => false end.
-
-Lemma kstep_opn strict st m st' : kstep strict st m = Some st' -> opn st' = negb (opn st).
-Proof.
-  unfold kstep. destruct (is_on m), st as [|a|a b]; try discriminate.
-  - intros [= <-]. reflexivity.
-  - destruct (b <=? m_time m); [|discriminate]. intros [= <-]. reflexivity.
-  - destruct (if strict then _ else _); [|discriminate]. intros [= <-]. reflexivity.
-Qed.
-
-Lemma krun_popen strict : forall L st o st', krun strict st L = Some st' -> opn st = is_some o ->
-  opn st' = is_some (popen o L).
-Proof.
-  induction L as [|m L IH]; intros st o st' Hr Ho; cbn [krun popen] in *.
-  - now injection Hr as <-.
-  - destruct (kstep strict st m) as [st1|] eqn:KS; [|discriminate].
-    apply kstep_opn in KS. destruct o; cbn [is_some] in Ho; apply (IH st1 _ st' Hr); rewrite KS, Ho; reflexivity.
-Qed.
-
-Lemma cpairs_in o L on off : In (on, Some off) (cpairs o L) -> (In on L \/ o = Some on) /\ In off L.
-Proof.
-  revert o. induction L as [|m L IH]; intros o; cbn [cpairs]; [intros []|].
-  destruct o as [x|].
-  - intros [[= <- <-]|H]; [split; [now right|now left]|].
-    destruct (IH None H) as [[H1|H1] H2]; [|discriminate]. split; [left|]; now right.
-  - intros H. destruct (IH (Some m) H) as [[H1|H1] H2].
-    + split; [left|]; now right.
-    + injection H1 as <-. split; [left; now left|now right].
-Qed.
-
-Lemma cpairs_closed o L sp : In sp (cpairs o L) -> exists off, snd sp = Some off.
-Proof.
-  revert o. induction L as [|m L IH]; intros o; cbn [cpairs]; [intros []|].
-  destruct o as [x|]; [intros [<-|H]; [now exists m|eauto]|eauto].
-Qed.
-
 (* ------------------------------------------------------------------ the pairing loop on well-formed input *)
 Definition chan_of (ch : Z) (st : list (Z * chst)) : chst :=
   match dget Z.eqb ch st with Some c => c | None => mkch [] [] end.
@@ -251,12 +180,6 @@ Proof.
         destruct (dget Z.eqb n (c_open cs)) as [idx'|]; [|exact Ho]. destruct Ho as [Ho1 Ho2]. split; [|exact Ho2].
         rewrite last_idx_set_nth; [exact Ho1|]. intros x. reflexivity.
 Qed.
-
-Lemma kproj_app k a b : kproj k (a ++ b) = kproj k a ++ kproj k b.
-Proof. unfold kproj. apply filter_app. Qed.
-
-Lemma no_fail_app a b : no_fail (a ++ b) -> no_fail a.
-Proof. intros H k Hk. apply (H k). now rewrite kproj_app, krun_app, Hk. Qed.
 
 Lemma pair_fold : forall L pre st, no_fail (pre ++ map snd L) -> PInv pre st ->
   PInv (pre ++ map snd L) (fold_left (pair_step NOTE_TYPES true) L st).
@@ -501,12 +424,6 @@ Proof.
 Qed.
 
 (* ------------------------------------------------------------------ assembling the channels *)
-Lemma kproj_in k l m : In m (kproj k l) -> In m l /\ is_note m = true /\ qkey m = k.
-Proof.
-  unfold kproj. intros H. apply filter_In in H. destruct H as [H1 H2]. apply andb_true_iff in H2.
-  destruct H2 as [H2 H3]. apply k2_eqb_eq in H3. auto.
-Qed.
-
 Lemma chan_pairs_in ch ps p : In p (chan_pairs ch ps) -> exists c, In (c, chan_pairs ch ps) ps.
 Proof.
   unfold chan_pairs. destruct (dget Z.eqb ch ps) as [P|] eqn:G; [|intros []].
@@ -624,3 +541,91 @@ Proof.
     destruct st; cbn in Hc; auto.
   - intros k. destruct (Hrun k) as (st & Hr & _). rewrite (kproj_sort_abs k R st Hr). apply HR.
 Qed.
+
+(* ------------------------------------------------------------------ corollaries *)
+(* durations of the consecutive (on, off) pairs of a key's list *)
+Fixpoint pair_durs (L : list msg) : list Z :=
+  match L with
+  | on :: off :: L' => (m_time off - m_time on) :: pair_durs L'
+  | _ => []
+  end.
+
+Lemma qnl_key_durs values dne : forall L, Forall (fun d => In d values) (pair_durs (qnl_key values dne L)).
+Proof.
+  induction L as [| x | on off L IH] using list_ind2; try constructor.
+  cbn [qnl_key]. set (cur := m_time off - m_time on). set (valid := filter _ values).
+  destruct valid as [|v vs] eqn:Ev; [exact IH|].
+  cbn [pair_durs]. constructor; [|exact IH]. cbn [set_time m_time].
+  replace (m_time on + closest cur (v :: vs) - m_time on) with (closest cur (v :: vs)) by ring.
+  assert (Hin : In (closest cur (v :: vs)) valid) by (rewrite Ev; apply closest_in; discriminate).
+  unfold valid in Hin. apply filter_In in Hin. tauto.
+Qed.
+
+Lemma qnl_key_in values dne : forall L st st', kst_closed st -> krun true st L = Some st' ->
+  forall m, In m (qnl_key values dne L) ->
+    (is_on m = true /\ In m L) \/
+    (is_on m = false /\ exists off, In off L /\ m = set_time off (m_time m) (m_tf off)).
+Proof.
+  induction L as [| x | on off L IH] using list_ind2; intros st st' Hc Hr m Hm; try destruct Hm.
+  cbn [krun] in Hr.
+  destruct (kstep true st on) as [s1|] eqn:KS1; [|discriminate].
+  destruct (kstep_closed_on _ _ _ Hc KS1) as (Hon & -> & _).
+  destruct (kstep true (KOpen (m_time on)) off) as [s2|] eqn:KS2; [|discriminate].
+  assert (Hoff : is_on off = false).
+  { destruct (is_on off) eqn:E; [|reflexivity]. unfold kstep in KS2. rewrite E in KS2. discriminate. }
+  destruct (kstep_off_inv _ _ _ _ Hoff KS2) as (a & _ & -> & _).
+  assert (Hrest : In m (qnl_key values dne L) ->
+    (is_on m = true /\ In m (on :: off :: L)) \/
+    (is_on m = false /\ exists off0, In off0 (on :: off :: L) /\ m = set_time off0 (m_time m) (m_tf off0))).
+  { intros H. destruct (IH (KClosed a (m_time off)) st' I Hr m H) as [[H1 H2]|[H1 (o & H2 & H3)]].
+    - left. split; [exact H1|]. right. now right.
+    - right. split; [exact H1|]. exists o. split; [right; now right|exact H3]. }
+  cbn [qnl_key] in Hm. set (valid := filter _ values) in Hm.
+  destruct valid as [|v vs]; [now apply Hrest|].
+  destruct Hm as [<-|[<-|Hm]]; [| |now apply Hrest].
+  - left. split; [exact Hon|now left].
+  - right. split; [exact Hoff|]. exists off. split; [right; now left|reflexivity].
+Qed.
+
+Lemma C06_main_durations : forall l values std dne k,
+  wf_abs l = true -> nodupb values = true -> pos_steps values = true ->
+  Forall (fun d => In d values) (pair_durs (kproj k (quantise_note_lengths l values std dne))).
+Proof.
+  intros l values std dne k Hwf Hb Hpos. destruct (C06_main l values std dne Hwf Hb Hpos) as [_ H].
+  rewrite H. apply qnl_key_durs.
+Qed.
+
+Lemma C06_main_members : forall l values std dne m,
+  wf_abs l = true -> nodupb values = true -> pos_steps values = true ->
+  In m (quantise_note_lengths l values std dne) -> is_note m = true ->
+  (is_on m = true /\ In m l) \/
+  (is_on m = false /\ exists off, In off l /\ m = set_time off (m_time m) (m_tf off)).
+Proof.
+  intros l values std dne m Hwf Hb Hpos Hin Hn.
+  destruct (C06_main l values std dne Hwf Hb Hpos) as [_ H].
+  assert (Hk : In m (kproj (qkey m) (quantise_note_lengths l values std dne))).
+  { unfold kproj. apply filter_In. split; [exact Hin|]. now rewrite Hn, k2_eqb_refl. }
+  rewrite H in Hk. apply wf_abs_spec in Hwf. destruct Hwf as [_ Hkeys].
+  destruct (wf_key_krun (qkey m) l (Hkeys (qkey m))) as (st & Hr & _).
+  destruct (qnl_key_in values dne _ KNone st I Hr m Hk) as [[H1 H2]|[H1 (o & H2 & H3)]].
+  - left. split; [exact H1|]. now apply kproj_in in H2.
+  - right. split; [exact H1|]. exists o. split; [now apply kproj_in in H2|exact H3].
+Qed.
+
+(* ------------------------------------------------------------------ examples (non-vacuity) *)
+(* two channels with the same pitch, back-to-back repeated pitch on channel 0, a very short note, a control change *)
+Definition ex6_l : list msg :=
+  [ mk_on 0 60 90 0 false; mk_on 1 60 80 0 false; mk_cc 0 7 100 3 false; mk_off 0 60 10 false;
+    mk_on 0 60 70 10 false; mk_off 0 60 13 false; mk_on 0 62 64 13 false;
+    mk_off 0 62 14 false; mk_off 1 60 50 false ].
+
+Example ex6_hyp : wf_abs ex6_l = true /\ nodupb [12; 24; 48] = true /\ pos_steps [12; 24; 48] = true.
+Proof. vm_compute. repeat split. Qed.
+
+Example ex6_out :
+  map (fun m => (m_type m, m_chan m, m_note m, m_time m)) (quantise_note_lengths ex6_l [12; 24; 48] 24 false) =
+  [ (NOTE_ON, 1, 60, 0); (CONTROL_CHANGE, 0, -1, 3); (NOTE_ON, 0, 60, 10); (NOTE_ON, 0, 62, 13);
+    (NOTE_OFF, 0, 60, 22); (NOTE_OFF, 0, 62, 25); (NOTE_OFF, 1, 60, 48) ] /\
+  map (fun m => (m_type m, m_chan m, m_note m, m_time m)) (quantise_note_lengths ex6_l [12; 24; 48] 24 true) =
+  [ (NOTE_ON, 1, 60, 0); (CONTROL_CHANGE, 0, -1, 3); (NOTE_OFF, 1, 60, 48) ].
+Proof. vm_compute. split; reflexivity. Qed.
